@@ -24,6 +24,7 @@ EXPLANATION = (
     "interleaved and solo runs is not decided."
     ' (R5) no module- or class-level binding holds an exhaustible iterator (generator expression, chain, map, filter, zip, iter ...) that a function reads.'
     ' (R3) attributes of class objects assigned from functions are process-wide state (exempt: a transaction counter written only in ModbusTcpProtocolCommand.request_bytes and read nowhere else).'
+    ' (R6) the in-place decoders (read_value / read of shared definitions) never read an attribute of self that methods assign before this call has assigned it: a decode cannot depend on what an earlier decode left behind.'
 )
 
 MUTATORS = {"append", "extend", "insert", "pop", "remove", "clear", "update", "setdefault", "popitem", "sort", "reverse", "add", "discard"}
@@ -54,6 +55,76 @@ def shared_instances(ctx: Ctx) -> Dict[str, List[str]]:
                             if where not in out[b[1].name]:
                                 out[b[1].name].append(where)
     return out
+
+
+def stale_decode_state(ctx: Ctx, rep: Report, shared):
+    """(R6) Some shared definitions decode in place (the schedule groups: a known finding of R1).  What they must not
+    do on top of that is *read* what an earlier decode left behind: on every path of read_value / read of a class
+    instantiated at module / class level, an attribute of self that methods other than __init__ assign is read only
+    after this call has assigned it.  Otherwise the value decoded for one inverter depends on what another inverter
+    object read before."""
+    from ..paths import enumerate_paths, no_raise
+    prog = ctx.prog
+    rep.rule("C20.R6", "a decode never reads state an earlier decode left on the shared definition: in read_value / read every mutable attribute of self is assigned before it is read", 2)
+    n = 0
+    for cname in sorted(shared):
+        if not prog.has_cls(cname):
+            continue
+        ci = prog.cls(cname)
+        if prog.is_enum(ci) or prog.is_subclass(ci, prog.ext_class("builtins.BaseException")):
+            continue
+        mutable: Set[str] = set()
+        for c in prog.mro(ci):
+            if isinstance(c, ClassInfo):
+                for m in c.methods.values():
+                    if m.name != "__init__":
+                        mutable |= {a for st in ast.walk(m.node) if isinstance(st, ast.stmt) for a, _, _ in self_store(st)}
+        if not mutable:
+            continue
+        for mname in ("read_value", "read"):
+            m = prog.find_method(ci, mname)
+            if m is None or m.cls is None or not any(isinstance(x, ast.Attribute) and isinstance(x.value, ast.Name) and x.value.id == "self" and x.attr in mutable for x in ast.walk(m.node)):
+                continue
+            key = "stale-state:%s.%s" % (m.cls.name, mname)
+            if any(o.key == key for o in rep.obligations):
+                continue
+            n += 1
+            bad = None
+            for p in enumerate_paths(prog, m, no_raise):
+                assigned: Set[str] = set()
+                for i, ev in enumerate(p.events):
+                    node = ev.node
+                    if node is None or p.fn_at(i, m).cls is None:
+                        continue
+                    if ev.kind == "stmt" and isinstance(node, (ast.Assign, ast.AnnAssign, ast.AugAssign)):
+                        loads = [node.value] if getattr(node, "value", None) is not None else []
+                        if isinstance(node, ast.AugAssign):
+                            loads.append(node.target)
+                        tgts = node.targets if isinstance(node, ast.Assign) else [node.target]
+                        loads += [t.value for t in tgts if isinstance(t, ast.Subscript)]
+                    elif ev.kind in ("test", "call", "await", "raise", "return", "stmt", "iter"):
+                        loads, tgts = [node.value if ev.kind == "return" and getattr(node, "value", None) is not None else node], []
+                        if ev.kind == "return" and getattr(node, "value", None) is None:
+                            loads = []
+                    else:
+                        continue
+                    for l in loads:
+                        for x in ast.walk(l):
+                            if isinstance(x, ast.Attribute) and isinstance(x.ctx, ast.Load) and isinstance(x.value, ast.Name) and x.value.id == "self" \
+                                    and x.attr in mutable and x.attr not in assigned and bad is None:
+                                bad = (p, x)
+                    for t in tgts:
+                        for x in ast.walk(t):
+                            if isinstance(x, ast.Attribute) and isinstance(x.ctx, ast.Store) and isinstance(x.value, ast.Name) and x.value.id == "self":
+                                assigned.add(x.attr)
+                if bad is not None:
+                    break
+            rep.check(bad is None, "C20.R6", key, m.loc(bad[1]) if bad else m.loc(),
+                      "%s.%s assigns every mutable attribute of self before reading it" % (m.cls.name, mname),
+                      bad="%s.%s reads self.%s before this call has assigned it: the decoded value depends on what an earlier read - possibly by another inverter object, %s definitions are shared - left there [path %s]" % (
+                          m.cls.name, mname, bad[1].attr if bad else "?", cname, bad[0].describe(6) if bad else ""))
+    if n == 0:
+        raise AnalysisError("no in-place decoder found among the shared definitions (the schedule groups were expected)")
 
 
 def check(ctx: Ctx, rep: Report):
@@ -122,6 +193,7 @@ def check(ctx: Ctx, rep: Report):
                         if any(ty[0] == "inst" and any(sub.name in shared for sub in prog.all_subclasses(ty[1])) for ty in types):
                             rep.violation("C20.R1", "external-store:%s:%s" % (fn.short, norm(t)), fn.loc(n),
                                           "%s assigns %s on a definition object shared by all inverter instances" % (fn.short, norm(t)))
+    stale_decode_state(ctx, rep, shared)
     # ---- R2
     inv = prog.cls("Inverter")
     for ci in prog.all_subclasses(inv, include_self=False):
